@@ -60,6 +60,7 @@ def job_dfa(job, n, k):
         job.oblige('parse_dfa(print_dfa(D)) has the same states, alphabet, transitions, initial and accepting states',
                    view_diff(view, DfaView(D2, None, None, prune=False), 'dfa'), replay=rp)
     job.failures_as_obligations(replay=rp)
+    job.sample_replays = 3
     return job.solve()
 
 
@@ -79,6 +80,7 @@ def job_nfa(job, n, k, eps, partial):
         job.oblige('parse_nfa(print_nfa(N)) has the same states, alphabet, transitions, epsilon, initial and accepting states',
                    view_diff(view, NfaView(N2, None, None), 'nfa'), replay=rp)
     job.failures_as_obligations(replay=rp)
+    job.sample_replays = 3
     return job.solve()
 
 
@@ -113,6 +115,7 @@ def job_pda(job, fam, eps='_', seed=0, nsym=7):
         bad += [d.iff(TRUE if s == 'a' else FALSE, g) ^ 1 for s, g in Sig2.items()] + [Sig2.get('a', FALSE) ^ 1]
         job.oblige('parse_pda(print_pda(P)) is the same automaton', d.any_(bad), replay=rp)
     job.failures_as_obligations(replay=rp)
+    job.sample_replays = 3
     return job.solve()
 
 
@@ -147,6 +150,7 @@ def job_tm(job, nwork, gamma_in, blank, tstep=1):
             bad += [d.and_(g, TRUE if str(v) != exp else FALSE) for g, v in E.alts(getattr(T2, name))]
         job.oblige('parse_tm(print_tm(T)) is the same machine', d.any_(bad), replay=rp)
     job.failures_as_obligations(replay=rp)
+    job.sample_replays = 3
     return job.solve()
 
 
@@ -184,6 +188,7 @@ def job_regexp(job, depth, maxlen, syms='ab', shape=None):
         again = E.lift(printer, [x])
         job.oblige('%s: printing the re-parsed expression gives the same text' % nm, L.EQ(again, texts[nm]) ^ 1, replay=rp)
     job.failures_as_obligations(replay=rp)
+    job.sample_replays = 3
     return job.solve()
 
 
@@ -231,6 +236,7 @@ def job_cfg(job, family, nsym=6):
         job.oblige('parse_simple_cfg(cfg_print_simple(G)) == G (the library\'s own equality)', E.lit(L.CMP('Eq', G2, G)) ^ 1, replay=rp)
     job.failures_as_obligations(replay=rp)
     job.must_reach('precondition satisfiable', TRUE)
+    job.sample_replays = 3
     return job.solve()
 
 
